@@ -10,6 +10,7 @@ Variable expr_eqb : expr -> expr -> bool.
 Variable key_eqb : key -> key -> bool.
 Variable keyf : expr -> key.
 Variable doit : expr -> expr.
+Variable picklable : expr -> bool.
 
 (* SymPy's structural equality is a congruence for doit(): equal expressions unfold equally.
    (Trusted link, exercised by the harness on every pair of pool expressions.) *)
@@ -18,10 +19,10 @@ Hypothesis eqb_doit : forall a b, expr_eqb a b = true -> doit a = doit b.
 Notation Sys := (sys expr key).
 Notation PS := (pstate expr key).
 Notation Act := (action expr key).
-Notation stepR := (step expr key expr_eqb key_eqb keyf doit Robust).
-Notation runR := (run expr key expr_eqb key_eqb keyf doit Robust).
-Notation do_stepR := (do_step expr key expr_eqb key_eqb keyf doit Robust).
-Notation run_toR := (run_to expr key expr_eqb key_eqb keyf doit Robust).
+Notation stepR := (step expr key expr_eqb key_eqb keyf doit picklable Robust).
+Notation runR := (run expr key expr_eqb key_eqb keyf doit picklable Robust).
+Notation do_stepR := (do_step expr key expr_eqb key_eqb keyf doit picklable Robust).
+Notation run_toR := (run_to expr key expr_eqb key_eqb keyf doit picklable Robust).
 Notation updk := (upd expr key key_eqb).
 
 (* ---------------------------------------------------------------------------------------- *)
@@ -80,7 +81,7 @@ Proof.
     apply Hd in Hk. rewrite Hk. f_equal. apply eqb_doit; auto.
   - inv_split; auto. apply set_nth_Forall; simpl; auto.
   - inv_split; auto. apply set_nth_Forall; simpl; auto.
-  - inv_split; auto. apply set_nth_Forall; simpl; auto.
+  - destruct (picklable e); inv_split; auto; apply set_nth_Forall; simpl; subst; auto.
   - destruct (dir s k) as [c|] eqn:Hk; [destruct c|];
       try (exfalso; eapply Hb; eauto; fail);
       (inv_split;
@@ -191,6 +192,8 @@ Proof.
       right; eexists; (split; [reflexivity|simpl; repeat split; auto; lia]).
   - destruct (dir s k) as [c|]; [destruct c|];
       right; eexists; (split; [reflexivity|simpl; repeat split; auto; lia]).
+  - destruct (picklable e);
+      right; eexists; (split; [reflexivity|simpl; repeat split; auto; lia]).
   - destruct (dir s k) as [c|]; [destruct c|];
       right; eexists; (split; [reflexivity|simpl; repeat split; auto; lia]).
 Qed.
@@ -288,12 +291,14 @@ Variable expr_eqb : expr -> expr -> bool.
 Variable key_eqb : key -> key -> bool.
 Variable keyf : expr -> key.
 Variable doit : expr -> expr.
+Variable picklable : expr -> bool.
 Hypothesis key_eqb_spec : forall a b, key_eqb a b = true <-> a = b.
+Hypothesis all_picklable : forall e, picklable e = true.
 
 Notation PS := (pstate expr key).
-Notation runP := (run expr key expr_eqb key_eqb keyf doit Pinned).
-Notation do_stepP := (do_step expr key expr_eqb key_eqb keyf doit Pinned).
-Notation run_toP := (run_to expr key expr_eqb key_eqb keyf doit Pinned).
+Notation runP := (run expr key expr_eqb key_eqb keyf doit picklable Pinned).
+Notation do_stepP := (do_step expr key expr_eqb key_eqb keyf doit picklable Pinned).
+Notation run_toP := (run_to expr key expr_eqb key_eqb keyf doit picklable Pinned).
 Notation updk := (upd expr key key_eqb).
 
 (* every file is the pinned-format unfolding of some expression with that key *)
@@ -322,7 +327,7 @@ Lemma rt_done : forall f d (l : list PS) p, at_phase expr key AtEnd p = true ->
 Proof. intros. cbn [run_to procs]. rewrite nth_error_snoc, H. reflexivity. Qed.
 
 Ltac one :=
-  rewrite rt_step by reflexivity; unfold do_step; cbn [procs dir]; rewrite nth_error_snoc.
+  rewrite rt_step by reflexivity; unfold do_step; cbn [procs dir]; rewrite nth_error_snoc, ?all_picklable.
 Ltac fin := unfold setp, setdp; cbn [procs dir]; rewrite set_nth_snoc.
 
 Lemma pinned_call : forall l d e,
@@ -372,15 +377,17 @@ Variable expr_eqb : expr -> expr -> bool.
 Variable key_eqb : key -> key -> bool.
 Variable keyf : expr -> key.
 Variable doit : expr -> expr.
+Variable picklable : expr -> bool.
 Hypothesis key_eqb_spec : forall a b, key_eqb a b = true <-> a = b.
 Hypothesis key_inj : forall e e', keyf e = keyf e' -> doit e = doit e'.
+Hypothesis all_picklable : forall e, picklable e = true.
 
 Notation PS := (pstate expr key).
 Notation Sys := (sys expr key).
 Notation Act := (action expr key).
-Notation runP := (run expr key expr_eqb key_eqb keyf doit Pinned).
-Notation stepP := (step expr key expr_eqb key_eqb keyf doit Pinned).
-Notation do_stepP := (do_step expr key expr_eqb key_eqb keyf doit Pinned).
+Notation runP := (run expr key expr_eqb key_eqb keyf doit picklable Pinned).
+Notation stepP := (step expr key expr_eqb key_eqb keyf doit picklable Pinned).
+Notation do_stepP := (do_step expr key expr_eqb key_eqb keyf doit picklable Pinned).
 Notation updk := (upd expr key key_eqb).
 Notation pinv := (pinv expr key keyf doit).
 
@@ -500,7 +507,7 @@ Proof.
   fold (runP (repeat (Chunk i) n) s1). set (s2 := runP (repeat (Chunk i) n) s1) in *.
   simpl fold_left.
   assert (E3 : do_stepP s2 i = setdp expr key key_eqb s2 k (Some (Legacy r)) i (PDone e (VExpr r))).
-  { unfold do_step. rewrite A, N1. reflexivity. }
+  { unfold do_step. rewrite A, N1, all_picklable. reflexivity. }
   rewrite E3. split; simpl.
   - intros k' c. unfold upd at 1. destruct (key_eqb k k') eqn:E.
     + apply key_eqb_spec in E. subst k'. intros H; inversion H; subst. exists e; split; auto.
@@ -541,7 +548,7 @@ End PinnedInterleaved.
 (* ---------------------------------------------------------------------------------------- *)
 (* concrete schedules (expressions and keys are numbers)                                    *)
 Section Witnesses.
-Notation nrunv v keyf doit := (run nat nat Nat.eqb Nat.eqb keyf doit v).
+Notation nrunv v keyf doit := (run nat nat Nat.eqb Nat.eqb keyf doit (fun _ => true) v).
 Notation A := (action nat nat).
 
 (* two different expressions, one key; sequential, nothing crashes *)
@@ -622,13 +629,30 @@ Definition pin_sched : list (atom nat) :=
   [ASpawn nat 0; ASpawn nat 0; ASpawn nat 1; AStep nat 0; AStep nat 1; AStep nat 0; AStep nat 1; AStep nat 0;
    AStep nat 2; AWrite nat 0 2; AStep nat 1; AStep nat 2; AWrite nat 1 0; AStep nat 2; ACrash nat 2].
 Lemma pin_sched_ok_l :
-  sched_ok nat nat Nat.eqb Nat.eqb kid dS (init empty_dir) pin_sched
-  /\ procs (run_atoms nat nat Nat.eqb Nat.eqb kid dS pin_sched (init empty_dir))
+  sched_ok nat nat Nat.eqb Nat.eqb kid dS (fun _ => true) (init empty_dir) pin_sched
+  /\ procs (run_atoms nat nat Nat.eqb Nat.eqb kid dS (fun _ => true) pin_sched (init empty_dir))
      = [PDone 0 (VExpr (dS 0)); PDone 0 (VExpr (dS 0)); PCrashed 1].
 Proof.
   split; [|vm_compute; reflexivity].
   simpl. repeat split; try (intros p H; inversion H; reflexivity); eauto.
 Qed.
+
+(* an expression that cannot be pickled (a lambda as attribute): the current code returns doit e,
+   writes nothing, and a later call on a picklable expression with the same key works and is cached;
+   the pinned code lets the exception escape and leaves a truncated file under that key *)
+Definition unp (e : nat) : bool := negb (Nat.eqb e 0).      (* expression 0 cannot be pickled *)
+Definition w_unpicklable : list A := call 0 0 ++ call 1 1 ++ call 2 0 ++ call 3 1.
+Lemma robust_unpicklable_l :
+  let s := run nat nat Nat.eqb Nat.eqb kconst dS unp Robust (call 0 0) (init empty_dir) in
+  procs s = [PDone 0 (VExpr (dS 0))] /\ dir s 0 = None
+  /\ procs (run nat nat Nat.eqb Nat.eqb kconst dS unp Robust w_unpicklable (init empty_dir))
+     = [PDone 0 (VExpr (dS 0)); PDone 1 (VExpr (dS 1)); PDone 0 (VExpr (dS 0)); PDone 1 (VExpr (dS 1))]
+  /\ dir (run nat nat Nat.eqb Nat.eqb kconst dS unp Robust w_unpicklable (init empty_dir)) 0 = Some (Valid 1 (dS 1)).
+Proof. vm_compute. repeat split; reflexivity. Qed.
+Lemma pinned_refuted_unpicklable_l :
+  let s := run nat nat Nat.eqb Nat.eqb kid dS unp Pinned (call 0 0 ++ call 1 0) (init empty_dir) in
+  procs s = [PRaised 0; PRaised 0] /\ dir s 0 = Some Garbage.
+Proof. vm_compute. split; reflexivity. Qed.
 End Witnesses.
 
 (* ---------------------------------------------------------------------------------------- *)
